@@ -70,6 +70,8 @@ pub fn start_determining_calling_process_in_thread() {
 
             let (caller_mutex, determine_done) = &**CALLER;
 
+            #[cfg(dandavison_delta_verif)]
+            crate::verif_hooks::sched::point("bg:before_lock");
             let mut caller = caller_mutex.lock().unwrap();
 
             if CALLER_INFO_SOURCE.load(DELTA_ATOMIC_ORDERING) <= CALLER_GUESSED {
@@ -78,10 +80,7 @@ pub fn start_determining_calling_process_in_thread() {
 
             determine_done.notify_all();
             #[cfg(dandavison_delta_verif)]
-            {
-                drop(caller);
-                crate::verif_hooks::sched::point("bg:done");
-            }
+            crate::verif_hooks::sched::point("bg:done");
         })
         .unwrap();
 }
@@ -98,10 +97,7 @@ pub fn set_calling_process(args: &[String]) {
         CALLER_INFO_SOURCE.store(CALLER_KNOWN, DELTA_ATOMIC_ORDERING);
         determine_done.notify_all();
         #[cfg(dandavison_delta_verif)]
-        {
-            drop(caller);
-            crate::verif_hooks::sched::point("pub:done");
-        }
+        crate::verif_hooks::sched::point("pub:done");
     }
 }
 
